@@ -18,8 +18,8 @@ def node_tuples(e, bdd):
     return [(nd.f[0].f[0], nd.f[1].f[0], nd.f[2].f[0]) for nd in bdd_nodes(e, bdd)]
 
 
-def setup(e, n):
-    ch1 = e.call_model('crossbeam_channel::unbounded', [])
+def setup(e, n, cap=None):
+    ch1 = e.call_model('crossbeam_channel::bounded', [cap]) if cap else e.call_model('crossbeam_channel::unbounded', [])
     ch2 = e.call_model('crossbeam_channel::unbounded', [])
     prod = e.call('obdd::Bdd::with_sender', [ch1.f[0]])
     relay = e.call('obdd::Bdd::with_sender_receiver', [ch2.f[0], ch1.f[1]])
@@ -87,6 +87,40 @@ def mirror_job(e, p):
     return {'producer_nodes': len(pn), 'polls': [w for w, _, _ in sched], 'relay_consumed': c1.head, 'last_consumed': c2.head}
 
 
+def bounded_job(e, p):
+    """the public API accepts any Sender: with a bounded channel a blocking send waits for the consumer.  Schedule explored here: the
+    relay runs (drains what is visible) exactly when the producer would block; the last store polls at the end."""
+    n = p['n']; cap = p['cap']
+    prod, relay, last, c1, c2 = setup(e, n, cap)
+    script = []
+    for k, s in enumerate(p['script']):
+        s = dict(s)
+        if s.get('bits') == 'sym': s['bits'] = tt_bits('s%d' % k, n)
+        script.append(s)
+    box = {}
+    def conc(m):
+        return {'n': n, 'script': box['st'].concrete_script(m)['steps'] if 'st' in box else [], 'cap': cap, 'polls': []}
+    def on_panic(e_, msg):
+        m = sat_model(e_, True)
+        if m is not None: report(e_, 'panic', what='bounded-channel run panics: %s' % msg[:200], case=conc(m))
+    def on_bound(e_, msg):
+        m = sat_model(e_, True)
+        if m is not None: report(e_, 'producer-blocks', what='producer blocks forever although the consumer keeps polling: %s' % msg[:160], case=conc(m))
+    e.hooks['on_panic'] = on_panic; e.hooks['on_bound'] = on_bound
+    def consumer(e_, ch):
+        e_.call('obdd::Bdd::recv', [Ref([relay], 0), T((1 << 64) - 1)])
+    e.hooks['chan_full'] = consumer
+    st = Store(e, n, check=False); st.bdd = prod; st.r = Ref([prod], 0); box['st'] = st
+    for s in script: st.step(dict(s))
+    for who in (relay, last): e.call('obdd::Bdd::recv', [Ref([who], 0), T((1 << 64) - 1)])
+    pn = node_tuples(e, prod)
+    for name, who in (('relay', relay), ('last', last)):
+        if not same_nodes(node_tuples(e, who), pn):
+            m = sat_model(e, True)
+            report(e, 'final-mismatch', what='bounded channel (capacity %d): after draining, %s holds %d nodes, the producer %d' % (cap, name, len(bdd_nodes(e, who)), len(pn)), case=conc(m))
+    return {'producer_nodes': len(pn), 'cap': cap, 'relay_consumed': c1.head}
+
+
 def same_nodes(a, b):
     if len(a) != len(b): return False
     for x, y in zip(a, b):
@@ -121,7 +155,7 @@ def py_judge(case, out):
     if out['final_relay'] != pn or out['final_last'] != pn: probs.append('after draining the tables differ from the producer')
     return probs
 
-def native_cmd(case): return dict(case, cmd='mirror')
+def native_cmd(case): return dict(case, cmd='mirror_bounded' if case.get('cap') else 'mirror')
 def replay(ctx, v):
     out = ctx.native().call(native_cmd(v['case']))
     probs = py_judge(v['case'], out)
@@ -199,11 +233,13 @@ def spec(ctx, tier, seed):
         # the number of schedules grows with (messages+2)^polls: long producer scripts get one poll less in the quick tier
         npolls = (3 if len(sc) <= 4 else 2) if tier == 'quick' else 4
         jobs.append(Job('seeded-n3-%d' % i, mod, 'mirror_job', {'n': n, 'script': sc, 'polls': npolls}, stop_after_violations=40))
+    jobs.append(Job('bounded-cap2-sym', mod, 'bounded_job', {'n': 2, 'script': [S, S, {'op': 'xor', 'a': 0, 'b': 1}], 'cap': 2}, stop_after_violations=40))
+    jobs.append(Job('bounded-cap1-sym', mod, 'bounded_job', {'n': 2, 'script': [S, {'op': 'not', 'a': 0}], 'cap': 1}, stop_after_violations=40))
     jobs.append(Job('canary', mod, 'mirror_job', {'n': 2, 'script': [S, {'op': 'not', 'a': 0}], 'polls': 1, 'canary': True}, stop_after_violations=1, canary=True))
     return {'jobs': jobs, 'level': 'model_checking', 'allowed_status': ('ok', 'panic'),
             'assumptions': ASSUMPTIONS + ['crossbeam unbounded channel is FIFO, lossless and non-duplicating; real threads are replaced by the prefix-visibility argument (module docstring)',
                                           'the producer does not observe its receivers'],
             'bounds': 'producer scripts: one symbolic (quick: a 2-variable function xor a variable; thorough: two 2-variable functions and a conjunction) and seeded 3-variable scripts of 2-4 operations; relay chain of length 2; '
                       '%d polls (%d thorough), each by relay or last (both explored), each with a symbolic non-decreasing visibility cut in [0,K] and an unconstrained symbolic 64-bit requested handle; '
-                      'final drain of both hops' % (3, 4),
+                      'final drain of both hops. Bounded channels (capacity 1 and 2): the relay is scheduled exactly when the producer would block' % (3, 4),
             'outside': 'more polls; chains longer than 2; a visibility cut inside the relay-to-last hop is subsumed by a later poll (argued, not executed); OS-level thread scheduling itself'}
